@@ -167,7 +167,10 @@ func parse(ctx context.Context, fileDesc *desc.FileDescriptor, mode meta.ParseSe
 }
 
 func parseMessage(ctx context.Context, msgDesc *desc.MessageDescriptor, cache compilingCache, recursionDepth int, opts Options, parseTarget ParseTarget) (*TypeDescriptor, error) {
-	if tycache, ok := cache[msgDesc.GetName()]; ok && tycache.parseTarget == parseTarget {
+	// NOTICE: the short name isn't unique: nested messages, the synthesized entry messages of map fields
+	// (A.ExtraEntry, B.ExtraEntry) and messages of other packages may share it
+	cacheKey := msgDesc.GetFullyQualifiedName()
+	if tycache, ok := cache[cacheKey]; ok && tycache.parseTarget == parseTarget {
 		return tycache.desc, nil
 	}
 
@@ -186,7 +189,7 @@ func parseMessage(ctx context.Context, msgDesc *desc.MessageDescriptor, cache co
 		msg:  md,
 	}
 
-	cache[ty.name] = &compilingInstance{
+	cache[cacheKey] = &compilingInstance{
 		desc:        ty,
 		opts:        opts,
 		parseTarget: parseTarget,
